@@ -347,7 +347,7 @@ pub fn run(mut ctx: Ctx) -> ! {
              exchange classes none / one-sided / two-sided; per-direction buffer from {0,1,2,4,16,512,unbounded}; LogSync and TopicLogSync; \
              non-trivial = a sender actually had to wait for the reader (in-flight messages exceeded the buffer) and the session still completed",
             2_000,
-            40_000,
+            60_000,
         )
         .min_nontrivial(0.15),
         move || strategy(max_ops),
